@@ -173,9 +173,11 @@ class HMap:
 
 class Iter:
     """lazy iterator (python generator of values) with an optional size hint"""
-    __slots__ = ('gen', 'tag', 'peek')
-    def __init__(self, gen, tag=''):
+    __slots__ = ('gen', 'tag', 'peek', 'sym_slots')
+    def __init__(self, gen, tag='', sym_slots=None):
         self.gen, self.tag = gen, tag
+        self.peek = None
+        self.sym_slots = sym_slots      # [(live, thunk)] for map-backed iterators not yet advanced (enables fork-free any/all)
     def __repr__(self):
         return f'Iter<{self.tag}>'
 
